@@ -6,6 +6,8 @@ Mutations of the last two, tried with tools/mut_fn.sh:
                     `.search(name)` -> `.match(name)`                          translator REFUSES (unsupported call: the opaque key is gone)
   FnAccessDispatch  `if skip_noncanonical:` -> `if not skip_noncanonical:`     KILLED (source_dispatch)
                     `fa_regions = drop_noncanonical_contigs(fa_regions)` -> `fa_regions = fa_regions`    KILLED
+  FnAccessExclude   `access_regions.subtract(excluded)` -> `excluded.subtract(access_regions)`           KILLED (source_exclude_step)
+                    `access_regions = access_regions.subtract(excluded)` -> `access_regions = excluded`  KILLED
 """
 MODULES = {
     # join_regions: ONE ITERATION of `for start, end in coords:` as a step function of the carried pair
@@ -72,6 +74,22 @@ MODULES = {
              returns=['fa_regions'],
              params=[('get_regions(fa_fname)', 'Z', 'scanned_id'), ('skip_noncanonical', 'B'),
                      ('drop_noncanonical_contigs', 'F:Z>Z', 'drop_fn')],
+             ret='Z'),
+    ]),
+    # do_access: ONE ITERATION of the exclude loop `for ex_fname in exclude_fnames: excluded = tabio.read(ex_fname, "bed3");
+    # access_regions = access_regions.subtract(excluded)` -- the carried table after the iteration.  Tables are opaque ids;
+    # the table read from the file is an opaque id keyed by its source text, `.subtract` a method-typed input on ids.
+    # (Proofs/FnAccessExclude.v: C13_source_exclude_loop -- under any reading of ids as region lists in which .subtract is the
+    # model's exclude_one, the step folded over the exclude files is Model/AccessPipe.v exclude_all)
+    # mutations: `access_regions.subtract(excluded)` -> `excluded.subtract(access_regions)` KILLED; `access_regions = access_regions.subtract(excluded)`
+    # -> `access_regions = excluded` KILLED
+    'FnAccessExclude': ('cnvlib/access.py', [
+        dict(name='do_access', coq='fn_exclude_step',
+             py_params=['fa_fname', 'exclude_fnames', 'min_gap_size', 'skip_noncanonical'],
+             loop=dict(first='for ex_fname in exclude_fnames'),
+             carried=[('access_regions', 'Z')],
+             params=[('access_regions', 'Z'), ("tabio.read(ex_fname, 'bed3')", 'Z', 'excluded_id'),
+                     ('.subtract', 'F:Z,Z>Z', 'subtract_fn')],
              ret='Z'),
     ]),
 }
